@@ -122,6 +122,7 @@ class MTDriver(driver.Driver):
         self.answering = None   # jobs of the command whose callback is running
         self.inflight = []      # messages handed to the scheduler's queue, not yet processed: (key, msg)
         self.ended = False
+        self.down = False
         self.hidden = set()     # jobs of the batch being executed that have not come into existence yet
 
     # ---- projection
@@ -131,6 +132,9 @@ class MTDriver(driver.Driver):
     def project(self):
         schd = self.schd
         sp = instrument.sync_proj(schd)
+        if self.down:
+            # the process is gone: no pool, no queues, no limit; what jobs send is lost
+            sp = dict(sp, pool=[], rhlimit=None, queues={qn: [] for qn in sp["queues"]})
         pool = {}
         for t in sp["pool"]:
             pool[f"{t['id'][0]}.{t['id'][1]}"] = {
@@ -166,12 +170,12 @@ class MTDriver(driver.Driver):
         fut = {}
         for name, tdef in schd.config.taskdefs.items():
             fut[name] = instrument._interval_int(tdef.max_future_prereq_offset) or 0
-        rb = getattr(schd.pool, "_prev_runahead_base_point", None)
+        rb = None if self.down else getattr(schd.pool, "_prev_runahead_base_point", None)
         stop = sp["stop_point"]
         return {"tohold": sorted(sp["tasks_to_hold"]), "holdpt": sp["hold_point"], "stop": stop,
                 "pool": pool, "rhl": sp["rhlimit"], "rhbase": TR.pt(rb) if rb is not None else None, "q": sp["queues"], "cmds": sorted(cmds), "acks": sorted(acks),
                 "jobs": jobs, "net": net, "stopped": self.stopped, "futseen": fut,
-                "maxfut": instrument._interval_int(schd.pool.max_future_offset) or 0}
+                "maxfut": 0 if self.down else (instrument._interval_int(schd.pool.max_future_offset) or 0)}
 
     @staticmethod
     def _m(msg):
@@ -204,6 +208,9 @@ class MTDriver(driver.Driver):
                     self.inflight.pop(n)
                     break
             self.boundary("Deliver", self._jid(key))
+            return
+        if flag == "(polled)":
+            self.boundary("Poll", self._jid(key))
             return
         self.boundary("Other:" + str(flag))
 
@@ -273,7 +280,10 @@ class MTDriver(driver.Driver):
             super().answer(cmd)
 
     def job_step(self, key):
+        n = len(self.net)
         super().job_step(key)
+        if self.down:
+            del self.net[n:]          # nobody listens: the message is lost
         self.boundary("EnvJobStep", self._jid(key))
 
     def deliver(self, i):
@@ -287,10 +297,21 @@ class MTDriver(driver.Driver):
         global CUR
         install()
         CUR = self
+        restart = self.incarnation > 0
         r = await super().boot()
         self.active = True
-        self.boundary("Boot")
+        self.down = False
+        self.stopped = "no"
+        self.boundary("Restart" if restart else "Boot")
         return r
+
+    def scheduler_stopped(self, reason):
+        """The scheduler process has exited on request (it will be restarted)."""
+        self.down = True
+        self.stopped = "down"
+        self.net = []
+        self.inflight = []
+        self.boundary("StopNow")
 
 
 def command_plan(w, rng, n_iters=12):
@@ -314,7 +335,11 @@ def command_plan(w, rng, n_iters=12):
             cl.append((it, "release_hold_point", {}))
         else:
             cl.append((it, "stop", {"mode": None, "cycle_point": str(rng.randint(w.icp, w.fcp))}))
-    return {"cmds": cl}
+    plan = {"cmds": cl}
+    if rng.random() < 0.5:
+        # stop --now (with the scheduler's view in sync with the jobs) and restart
+        plan["stop"] = {"iter": rng.randint(2, n_iters), "mode": "REQUEST_NOW", "restart": True, "sync": True}
+    return plan
 
 def one_mt_run(w, outcome_seed, env_seed, home, mode="complete_novanish", plan=None):
     """One execution of workflow w (plain, or with operator commands); returns the list of logged model steps."""
